@@ -17,7 +17,7 @@ rejects the bytes; `want` is `canonical ty v`.
   F3  `rep` on a non-slice field: the value is written by the second loop WITHOUT any tag (`05`): not a message.
   F4  zigzag32/64 on a message-typed field: the flag leaks into every integer of the nested message (5 written as 10).
   F5  field number 0 (`varint,0,opt`): tag byte `00` is written, which no protobuf parser accepts.
-  F6  duplicate field numbers: both fields are written under the same number; last one wins on decode.
+  F6  duplicate field numbers: both fields are written under the same number; last one wins on decodeU.
 
 (The earlier F7, fixed32/fixed64 on a pointer field, is repaired in the repository and in this model revision
 (`wrapPtrs`); such fields are now inside the universe of `decode_marshal_partial`, see the last `#eval`s.)
@@ -51,7 +51,7 @@ def agree (ty : Ty) (v : Val) : Bool :=
 #guard agree sfx64 (.struct (.cons (.int (-9223372036854775808)) .nil)) && agree sfx64 (.struct (.cons (.int 9223372036854775807) .nil))
 #guard toHex (marshal sfxp32 (.struct (.cons (.ptr (.int 0)) .nil))) == "0d00000000" && agree sfxp32 (.struct (.cons (.ptr (.int 0)) .nil))
 -- the model's own decoder reads it back as well (C03)
-#guard (unmarshal sfx32 (marshal sfx32 (.struct (.cons (.int (-5)) .nil)))).show Val.show == "ok:t 1 i -5"
+#guard (unmarshalU sfx32 (marshal sfx32 (.struct (.cons (.int (-5)) .nil)))).show Val.show == "ok:t 1 i -5"
 -- and these fields are inside the hypotheses of the theorems now:  tagAgree / tyOK = true, width mismatch still false
 #guard tagAgree 1 "protobuf:\"fixed32,1,opt\"" (.int .i32) && tagAgree 1 "protobuf:\"fixed64,1,opt\"" (.int .i64)
   && tagAgree 1 "protobuf:\"fixed32,1,opt\"" (.ptr (.int .i32)) && tyOK sfx32 && tyOK sfx64 && tyOK sfxp32
